@@ -212,6 +212,15 @@ class NodeExpandedDiGraph(nx.DiGraph):
                 min_cost_flow_network.add_edge(node + '.1', sink_node)
                 min_cost_flow_network[node + '.1'][sink_node].update({demands_attr: 0, capacities_attr: float('inf'), costs_attr: 0})
 
+        # The flow can also enter through the additional starts and leave through the additional ends, i.e. through the
+        # global source / sink they are connected to
+        if self.has_node(self.global_source_id + '.0'):
+            min_cost_flow_network.add_edge(source_node, self.global_source_id + '.0')
+            min_cost_flow_network[source_node][self.global_source_id + '.0'].update({demands_attr: 0, capacities_attr: float('inf'), costs_attr: 0})
+        if self.has_node(self.global_sink_id + '.1'):
+            min_cost_flow_network.add_edge(self.global_sink_id + '.1', sink_node)
+            min_cost_flow_network[self.global_sink_id + '.1'][sink_node].update({demands_attr: 0, capacities_attr: float('inf'), costs_attr: 0})
+
         for u, v, data in self.edges(data=True):
             if self.node_flow_attr not in data:
                 min_cost_flow_network[u][v].update({demands_attr: 0, capacities_attr: float('inf'), costs_attr: 0})
